@@ -79,6 +79,9 @@ static int build_hbops (int self, hbop *v) {
   v[n++] = (hbop) { 6, 3, 1, "clone-u" };
   v[n++] = (hbop) { 5, 3, 2, "clone-t2" };
   v[n++] = (hbop) { 7, self, 0, "error" };
+  v[n++] = (hbop) { 8, self, 1, "self-shb" };
+  v[n++] = (hbop) { 8, self, 2, "self-shb" };
+  for (int t = 0; t < NOBJ; t++) v[n++] = (hbop) { 9, t, 1, "reload_object" };
   return n;
 }
 
@@ -97,7 +100,9 @@ static void probe (object_t *ob, int index, int to_do, int nobjs) {
   if (c) {
     hbop *h = &v[c];
     /* prune alternatives that are no-ops in this state (identical to "none") */
-    if ((h->op == 2 || h->op == 4) && !live (h->tgt)) vx_child_exit (0);
+    if ((h->op == 2 || h->op == 4 || h->op == 9) && !live (h->tgt)) vx_child_exit (0);
+    if (h->op == 9 && !query_heart_beat (OB[h->tgt])) vx_child_exit (0);      /* reload of an object without heart beat = other-shb(1) */
+    if (h->op == 8 && query_heart_beat (ob) == h->val) vx_child_exit (0);       /* own interval unchanged, countdown just reset: no-op */
     if ((h->op == 5 || h->op == 6) && have_clone) vx_child_exit (0);
     if (h->op == 5 || h->op == 6) have_clone = 1;
     ob->variables[vi_op].u.number = h->op;
@@ -166,6 +171,9 @@ static int process_log (int in_tick) {
           if (in_tick && !val && M[tgt].n) vx_count (C_REMOVALS_IN_ROUND, 1);
           if (!(selftest == 1 && tgt == id && !val)) new_epoch (tgt, val, tickno + 1);
         }
+      } else if (!strcmp (op, "reload")) {
+        /* reload_object(): everything of the object is switched off, then its create() enables interval val */
+        if (tgt >= 0 && tgt < NOBJ && live (tgt)) { if (in_tick && M[tgt].n) vx_count (C_REMOVALS_IN_ROUND, 1); new_epoch (tgt, val, tickno + 1); }
       } else if (!strcmp (op, "dest")) {
         if (tgt >= 0 && tgt < NOBJ && live (tgt)) {
           if (in_tick && M[tgt].n) vx_count (C_REMOVALS_IN_ROUND, 1);
@@ -342,7 +350,15 @@ static void body (void) {
   char cb[600];
   /* initial population: O0..O2 each off / interval 1 / interval 2, enabled in id order */
   int init = (int) vx_opt_long ("init", -1);
-  if (init < 0) init = vx_choose_free (27, "init");
+  if (init < 0) {
+    /* --inits=a,b,c restricts the initial populations (codes 0..26, base 3: O0 + 3*O1 + 9*O2) */
+    const char *lst = vx_opt ("inits", 0);
+    if (lst) {
+      int v[27], n = 0;
+      for (const char *q = lst; *q && n < 27; ) { v[n++] = (int) strtol (q, (char **) &q, 10); if (*q == ',') q++; }
+      init = v[vx_choose_free (n, "init")];
+    } else init = vx_choose_free (27, "init");
+  }
   for (int i = 0, c = init; i < 3; i++, c /= 3) if (c % 3) top_shb (i, c % 3);
   (void) process_log (0);
   check_status ("after init");
@@ -351,8 +367,8 @@ static void body (void) {
   int ticks = 0;
   for (int step = 0; step < depth; step++) {
     vx_state (cb, (size_t) canon (cb, sizeof cb, step));
-    /* 0 stop | 1 tick | 2.. shb(X,v) 4x3 | destruct(X) 4 | clone-t(1) clone-u(1) clone-t(2) | unrelated uncaught error | schedule a faulting call_out */
-    int op = vx_choose_free (2 + NOBJ * 3 + NOBJ + 3 + 2, "step");
+    /* 0 stop | 1 tick | 2.. shb(X,v) 4x3 | destruct(X) 4 | clone-t(1) clone-u(1) clone-t(2) | unrelated uncaught error | schedule a faulting call_out | reload_object(X) 4 */
+    int op = vx_choose_free (2 + NOBJ * 3 + NOBJ + 3 + 2 + NOBJ, "step");
     if (op == 0) break;
     if (op == 1) {
       if (ticks >= maxticks) vx_child_exit (0);
@@ -385,6 +401,12 @@ static void body (void) {
       svalue_t *errs1 = safe_apply_master_ob ("query_errors", 0);
       int n1 = (errs1 && errs1 != (svalue_t *) -1 && errs1->type == T_ARRAY) ? errs1->u.arr->size : 0;
       if (n1 != n0 + 1) fail_hist ("C11:error-not-reported", "unrelated error: master error_handler saw %d errors", n1 - n0);
+    } else if (op >= NOBJ * 3 + NOBJ + 5) {
+      int i = op - (NOBJ * 3 + NOBJ + 5);
+      if (!live (i) || !M[i].n) vx_child_exit (0);        /* without heart beat it equals set_heart_beat(X,1) */
+      push_number (-1); push_number (i); push_number (1);
+      lg ("reload", 3);
+      vx_obs ("top: reload_object(O%d), its create() enables interval 1", i);
     } else {
       if (boom_pending) vx_child_exit (0);
       svalue_t *r = lg ("sched_boom", 0);
